@@ -170,3 +170,32 @@ def check_calls_c03(case, st, real):
         if missing:
             return f'needed functions were not executed: {missing}'
     return None
+
+
+def check_repeat_c03(case, steps, reals):
+    """C03 across calls: upstream of a cache hit nothing is executed.  A call repeated with the same inputs whose output is a
+    cache edge on an unbounded store returned a value before, no clear / fault in between, nothing upstream hashed by value
+    (by-value, impure, barrier, switch edges execute while hashing): the repetition must execute no user function."""
+    from .gen_vm import reachable
+    BYVAL = ('byvalue', 'impure', 'barrier', 'switch', 'switch_branch', 'switch_missing')
+    seen = {}
+    for i, (st, r) in enumerate(zip(steps, reals)):
+        if st['t'] == 'clear':
+            seen.clear()
+            continue
+        if st['t'] != 'call' or not r.get('valid', True):
+            continue
+        e = case['nodes'][st['out']]['edge'] or {}
+        if e.get('k') != 'cache' or case['stores'][e['store']] is not None or st.get('fail_at'):
+            continue
+        reach = reachable(case, st['out'])
+        if any((case['nodes'][n]['edge'] or {}).get('k') in BYVAL for n in reach) or case.get('impure'):
+            continue
+        if any(isinstance(v, (list, dict)) for v in st['env'].values()):
+            continue
+        key = (st['out'], repr(sorted(st['env'].items())))
+        if key in seen and 'ok' in r['r'] and r['log']:
+            return i, f'a repeated call whose output is cached executed {sorted({c[0] for c in r["log"]})} upstream of the cache hit'
+        if 'ok' in r['r']:
+            seen[key] = i
+    return None
